@@ -90,7 +90,7 @@ def check_case(case):
 
 OPS = ['delete', 'duplicate', 'swap', 'move', 'truncate', 'retag', 'orphan-trailer', 'dup-trailer', 'bad-count', 'empty-segment',
        'blank-segment', 'sep-only-segment', 'no-elements', 'extra-elements', 'extra-components', 'long-segment', 'second-isa',
-       'unknown-gs08', 'bad-isa12', 'leading-blank', 'trailing-seps', 'bad-bht02', 'bad-hl', 'lowercase-id', 'isa-15-elements', 'delete-header', 'garble-element', 'garble-element', 'bad-lx', 'empty-first-component', 'empty-first-component', 'trailer-before-header', 'append-orphan-envelope', 'pile-up', 'pile-up', 'pile-up']
+       'unknown-gs08', 'bad-isa12', 'leading-blank', 'trailing-seps', 'bad-bht02', 'bad-hl', 'lowercase-id', 'isa-15-elements', 'delete-header', 'garble-element', 'garble-element', 'bad-lx', 'extra-elements', 'empty-first-component', 'empty-first-component', 'trailer-before-header', 'append-orphan-envelope', 'pile-up', 'pile-up', 'pile-up']
 
 
 def mutate(text, ch, nops):
@@ -146,7 +146,8 @@ def mutate(text, ch, nops):
         elif op == 'no-elements':
             segs[i] = segs[i].split(ele)[0]
         elif op == 'extra-elements':
-            segs[i] = segs[i] + ele.join([''] + ['X'] * ch.integer(1, 40))
+            # ... up to and past 99, the last position a reference designator can name
+            segs[i] = segs[i] + ele.join([''] + ['X'] * (ch.integer(1, 40) if ch.chance(.7) else ch.choice([97, 98, 99, 100, 101, 150])))
         elif op == 'extra-components':
             p = segs[i].split(ele)
             if len(p) > 1:
